@@ -7,19 +7,111 @@ package vm
 // Host preconditions of the entry points (an "initialised host" in the sense of C03): the EVM was built by
 // NewEVM (tracer, interpreter present), the block context has a block number, the caller reference is a
 // non-nil ContractRef, value is a non-nil big integer in [0, 2^256).
-//@ pred hostEVM(evm) = evm != nil && evm.tracer != nil && evm.tracer.callTree != nil && evm.tracer.states != nil && evm.interpreter != nil && evm.StateDB != nil && evm.Context.BlockNumber != nil
+//@ pred hostEVM(evm) = evm != nil && evm.tracer != nil && evm.tracer.callTree != nil && evm.tracer.states != nil && evm.interpreter != nil && evm.interpreter.evm == evm && evm.interpreter.tracer == evm.tracer && evm.StateDB != nil && evm.Context.BlockNumber != nil
 //@ pred hostRef(r) = r != nil && (dyntype_is(r, "*vm.Contract") ==> obj(r) != 0)
 
+// EVM.Call: ghost monitors over the events of one activation.
+//   C04  snapshot / state-version monitor: a failed frame ends in the state of its snapshot
+//   C05  join-point protocol: pre once before Run, post once after, none for precompiles / code-less accounts / JP off
+//   C06  gas through the join points;  C02 leftover-gas rule
+//   C07  call-tree cursor restored, WF preserved;  C08 SaveCall first / ExitCall last with the final results
+//   C13  the value transfer goes through TransferWithRecord exactly once, after SaveCall
+//   C14  the contextful precompile that runs is the clone made for this caller
+//   C18  tracer start/enter and end/exit are balanced on every path
 //@ func (*vm.EVM).Call(evm, ctx, caller, addr, input, gas, value) (ret, leftOverGas, err)
 //@   verify
 //@   safety [C03]
-//@   requires host [C03]: hostEVM(evm) && hostRef(caller) && value != nil && !bigwide(value) && !bigneg(value)
+//@   requires host: hostEVM(evm) && hostRef(caller) && value != nil && !bigwide(value) && !bigneg(value)
+//@   requires no-wrap [C07]: evm.tracer.callTree.count != 18446744073709551615
+//@   let tree = evm.tracer.callTree
+//@   let callerAddr = uf("iface:github.com/ethereum/go-ethereum/core/vm.ContractRef.Address#0", "bv160", caller)
+//@   ghost saved bool = false
+//@   ghost exits u64 = 0
+//@   ghost exGas u64 = 0
+//@   ghost exRet slice = nil
+//@   ghost exErr error = nil
+//@   ghost node ptr = nil
+//@   ghost snapTaken bool = false
+//@   ghost snapver u64 = 0
+//@   ghost snapid u64 = 0
+//@   ghost jp bool = evm.IsExecuteJP
+//@   ghost preN u64 = 0
+//@   ghost runN u64 = 0
+//@   ghost postN u64 = 0
+//@   ghost preGas u64 = 0
+//@   ghost preErr error = nil
+//@   ghost postGas u64 = 0
+//@   ghost postErr error = nil
+//@   ghost runGasIn u64 = 0
+//@   ghost runGasOut u64 = 0
+//@   ghost runErr error = nil
+//@   ghost enters u64 = 0
+//@   ghost ends u64 = 0
+//@   ghost clones u64 = 0
+//@   ghost cloneres iface = nil
+//@   ghost xfers u64 = 0
+//@   ghost pcruns u64 = 0
+//@   oncall (*vm.Tracer).SaveCall : saved = true ; node = $0.callTree.current
+//@   oncall (*vm.Tracer).ExitCall : exits = exits + 1 ; exGas = $1 ; exRet = $2 ; exErr = $3
+//@   oncall StateDB.Snapshot : snapTaken = true ; snapver = statever ; snapid = uint64($r)
+//@   oncall Aspect).PreContractCall : preN = preN + 1 ; preGas = $r.Gas ; preErr = $r.Err
+//@   oncall Aspect).PostContractCall : postN = postN + 1 ; postGas = $r.Gas ; postErr = $r.Err
+//@   oncall (*vm.EVMInterpreter).Run : runN = runN + 1 ; runGasOut = $2.Gas ; runErr = $r1
+//@   oncall EVMLogger.CaptureStart : enters = enters + 1
+//@   oncall EVMLogger.CaptureEnter : enters = enters + 1
+//@   oncall EVMLogger.CaptureEnd : ends = ends + 1
+//@   oncall EVMLogger.CaptureExit : ends = ends + 1
+//@   oncall ContextfulPrecompiledContract.CloneWithCtx : clones = clones + 1 ; cloneres = $r
+//@   oncall (*vm.Tracer).TransferWithRecord : xfers = xfers + 1
+//@   oncall vm.RunPrecompiledContract : pcruns = pcruns + 1
+//@   assertcall (*vm.Tracer).SaveCall recorded-inputs [C08]: !saved && exits == 0 && $1 == callerAddr && $2 != nil && *$2 == addr && sameslice($3, input) && $4 != nil && *$4 == bigabs(value) && $5 != nil && *$5 == u256(gas)
+//@   assertcall StateDB. saved-first [C07 C08]: saved && exits == 0
+//@   assertcall CanTransferFunc saved-first-b [C07 C08]: saved && exits == 0
+//@   assertcall EVMLogger. not-after-exit [C08 C18]: saved && exits == 0
+//@   assertcall (*vm.Tracer).ExitCall exit-last [C08]: saved && exits == 0
+//@   assertcall StateDB.RevertToSnapshot revert-target [C04]: snapTaken && uint64($1) == snapid
+//@   assertcall StateDB.CreateAccount mutation-inside-snapshot [C04]: snapTaken
+//@   assertcall (*vm.Tracer).TransferWithRecord transfer-inside-snapshot [C04 C13]: snapTaken && saved && xfers == 0 && $2 == callerAddr && $3 == addr && $4 == value
+//@   assertcall vm.RunPrecompiledContract precompile-inside-snapshot [C04]: snapTaken
+//@   assertcall vm.RunPrecompiledContract runs-the-clone [C14]: (clones == 1 ==> $1 == cloneres) && (implements($1, "vm.ContextfulPrecompiledContract") ==> clones == 1)
+//@   assertcall ContextfulPrecompiledContract.CloneWithCtx clone-for-this-caller [C14]: clones == 0 && $1 != nil && $1.from == callerAddr && $1.to == addr
+//@   assertcall Aspect).PreContractCall pre-once-before-run [C05]: jp && preN == 0 && runN == 0 && postN == 0 && snapTaken
+//@   assertcall Aspect).PreContractCall pre-from [C05]: $2 == callerAddr
+//@   assertcall Aspect).PreContractCall pre-to [C05]: $3 == addr
+//@   assertcall Aspect).PreContractCall pre-data [C05]: sameslice($4, input)
+//@   assertcall Aspect).PreContractCall pre-value [C05]: $7 == value
+//@   assertcall Aspect).PreContractCall pre-message [C05]: $8 != nil && $8.Call != nil && sameslice($8.Call.Data, input) && $8.Call.Gas != nil && *$8.Call.Gas == $6
+//@   assertcall Aspect).PreContractCall pre-gas-is-current [C05 C06]: $6 == gas
+//@   assertcall (*vm.EVMInterpreter).Run run-after-pre [C05]: runN == 0 && postN == 0 && (jp ==> preN == 1 && preErr == nil) && (!jp ==> preN == 0) && snapTaken
+//@   assertcall (*vm.EVMInterpreter).Run callee-gas [C06 C02]: $2 != nil && (jp ==> $2.Gas == preGas) && (!jp ==> $2.Gas == gas)
+//@   assertcall Aspect).PostContractCall post-once-after-run [C05]: jp && preN == 1 && preErr == nil && runN == 1 && postN == 0
+//@   assertcall Aspect).PostContractCall post-from [C05]: $2 == callerAddr
+//@   assertcall Aspect).PostContractCall post-to [C05]: $3 == addr
+//@   assertcall Aspect).PostContractCall post-data [C05]: sameslice($4, input)
+//@   assertcall Aspect).PostContractCall post-value [C05]: $7 == value
+//@   assertcall Aspect).PostContractCall post-gas [C05 C06]: $6 == runGasOut
+//@   assertcall Aspect).PostContractCall post-message [C05]: $8 != nil && $8.Call != nil && sameslice($8.Call.Data, input) && sameslice($8.Call.Ret, ret) && $8.Call.Gas != nil && *$8.Call.Gas == $6
+//@   ensures exit-once-with-results [C08]: saved && exits == 1 && exGas == leftOverGas && sameslice(exRet, ret) && exErr == err
+//@   ensures cursor-restored [C07 C03]: tree.current == old(tree.current)
+//@   ensures node-pushed [C07]: tree.count > old(tree.count) && node != nil
+//@   ensures failed-frame-reverted [C04]: err != nil ==> (snapTaken ==> statever == snapver) && (!snapTaken ==> statever == old(statever))
+//@   ensures halt-forfeits-gas [C02 C06]: snapTaken && err != nil && err != ErrExecutionReverted ==> leftOverGas == 0
+//@   ensures refused-call-keeps-gas [C02]: !snapTaken ==> leftOverGas == gas && (err == ErrDepth || err == ErrInsufficientBalance)
+//@   ensures no-gas-created [C02 C06]: leftOverGas <= gas
+//@   ensures jp-protocol [C05]: (preN == 0 ==> postN == 0 && (jp ==> runN == 0)) && (preN == 1 ==> jp && ((preErr != nil ==> runN == 0 && postN == 0) && (preErr == nil ==> runN == 1 && postN == 1))) && preN <= 1
+//@   ensures jp-off-silent [C05]: !jp ==> preN == 0 && postN == 0
+//@   ensures caller-gets-post-gas [C06]: postN == 1 && (err == nil || err == ErrExecutionReverted) ==> leftOverGas == postGas
+//@   ensures jp-out-of-gas [C06]: (preN == 1 && preErr != nil && errtext(preErr) == "out of gas") || (postN == 1 && postErr != nil && errtext(postErr) == "out of gas") ==> err == ErrOutOfGas && leftOverGas == 0
+//@   ensures jp-failure-fails-call [C04 C05 C06]: (preN == 1 && preErr != nil) || (postN == 1 && postErr != nil) ==> err != nil
+//@   ensures tracer-balanced [C18]: enters == ends && enters <= 1
+//@   ensures one-transfer [C13]: xfers <= 1 && (runN == 1 || pcruns == 1 ==> xfers == 1)
+//@   modifies *
 //@ end
 
 //@ func (*vm.EVM).precompile
 //@   verify
 //@   safety [C03 C14]
-//@   requires recv [C03]: evm != nil
+//@   requires recv: evm != nil
 //@   ensures found-is-nonnil [C03 C14]: result1 ==> result0 != nil
 //@ end
 
@@ -28,11 +120,12 @@ package vm
 // Call/create -> Run -> opCall/opCreate -> Call/create: nested frames go through
 // the verified frame functions, which restore the call-tree cursor, depth and
 // read-only flag; ASSUMED here, listed in the evidence.
-//@ func (*vm.EVMInterpreter).Run
+//@ func (*vm.EVMInterpreter).Run(in, ctx, contract, input, readOnly) (ret, err)
 //@   trusted
 //@   kind mutating
-//@   requires nonnil [C03]: in != nil && contract != nil
+//@   requires nonnil: in != nil && contract != nil
 //@   modifies vm.Contract.Gas, vm.Contract.Input, vm.Contract.analysis, vm.EVMInterpreter.returnData, vm.EVM.callGasTemp
-//@   modifies vm.CallTree.count, vm.CallTree.root, map:map[uint64]*vm.Call, vm.Call.Children, vm.Call.Ret, vm.Call.Err, vm.Call.RemainingGas
+//@   modifies vm.CallTree.count, vm.CallTree.root, map:map[uint64]*vm.Call, vm.Call.Children, vm.Call.Ret, vm.Call.Err, vm.Call.RemainingGas, cell:*vm.Call
 //@   ensures gas-monotone [C02 C06]: contract.Gas <= old(contract.Gas)
+//@   ensures tree-grows [C07]: in.evm.tracer.callTree.count >= old(in.evm.tracer.callTree.count)
 //@ end
